@@ -13,7 +13,7 @@ a reported runtime error — never panic, abort or hang (ORACLE-FAIL [C06])."""
 import runlib
 from common import Check
 
-MODULES = ["NaijaVerif.Props.C06Eval"]
+MODULES = ["NaijaVerif.Props.C06Eval", "NaijaVerif.Props.C06Accepted"]
 
 
 def run(ck: Check):
